@@ -55,6 +55,8 @@ pub fn mine(prev_hash: BlockHash, merkle_root: TxMerkleNode, bits: CompactTarget
             return header;
         }
         nonce += 1;
+        // every target the harness mines for is met by at least one hash in a few thousand
+        assert!(nonce < (1 << 24), "unminable target: bits {:#x}", bits.to_consensus());
     }
 }
 
